@@ -32,16 +32,30 @@ def _mentions(e: ast.AST, name: str) -> bool:
     return any(isinstance(x, ast.Name) and x.id == name for x in ast.walk(e))
 
 
-def _subst(e: ast.AST, mapping: dict[str, ast.AST]) -> ast.AST:
-    import copy
+def _clone(e: ast.AST) -> ast.AST:
+    """Structural copy of an AST without the parent back-links (deepcopy would drag the whole module along)."""
+    new = type(e)()
+    for fld, val in ast.iter_fields(e):
+        if isinstance(val, ast.AST):
+            setattr(new, fld, _clone(val))
+        elif isinstance(val, list):
+            setattr(new, fld, [(_clone(v) if isinstance(v, ast.AST) else v) for v in val])
+        else:
+            setattr(new, fld, val)
+    for a in ("lineno", "col_offset", "end_lineno", "end_col_offset"):
+        if hasattr(e, a):
+            setattr(new, a, getattr(e, a))
+    return new
 
+
+def _subst(e: ast.AST, mapping: dict[str, ast.AST]) -> ast.AST:
     class T(ast.NodeTransformer):
         def visit_Name(self, n: ast.Name) -> ast.AST:
             if isinstance(n.ctx, ast.Load) and n.id in mapping:
-                return copy.deepcopy(mapping[n.id])
+                return _clone(mapping[n.id])
             return n
 
-    return T().visit(copy.deepcopy(e))
+    return T().visit(_clone(e))
 
 
 def helper_calls(mod, fn: ast.AST) -> list[tuple[ast.Call, ast.AST, dict[str, ast.AST]]]:
